@@ -19,6 +19,10 @@ pub fn run_check(prop: &str, tier: Tier, seed: u64) -> i32 {
     match prop {
         "C06" => c06(tier, seed),
         "C16" => c16(tier, seed),
+        "C10" => c10(tier, seed),
+        "C11" => c11(tier, seed),
+        "C12" => c12(tier, seed),
+        "C13" => c13(tier, seed),
         other => harness_error(&format!("no check registered for {other}")),
     }
 }
@@ -27,6 +31,7 @@ pub fn replay(doc: &J) -> i32 {
     let prop = doc["property"].as_str().unwrap_or("");
     match prop {
         "C06" | "C16" => crate::driver::replay::<ChainScenario>(doc),
+        "C10" | "C11" | "C12" | "C13" => crate::driver::replay::<crate::props_sched::SchedScenario>(doc),
         other => harness_error(&format!("replay: unknown property {other}")),
     }
 }
@@ -160,4 +165,123 @@ pub fn selfcheck(seed: u64, n: u64) -> i32 {
     println!("selfcheck: {n} engine-A scenarios deterministic");
     let _ = <ChainScenario as Scenario>::describe;
     0
+}
+
+// ------------------------------------------------------------------------------------------------
+// engine B
+
+pub fn components_engine_b() -> J {
+    json!({
+        "real_code": ["Sampler::{new, pause, resume, progress, flush, inspect, wait_timeout, abort}, the controller loop, ChainProcess::start and the chain loop, finalize_many — /repo/src/sampler.rs compiled with --cfg nuts_rs_verif; the chains themselves (all six presets) and CpuMath"],
+        "stubs": ["rayon pool: FIFO worker-pool stand-in (nuts_rs_verif_rt::ThreadPool, num_threads workers, scope body occupies one, panics re-raised at scope end)", "std Mutex/mpsc/thread: shuttle's models", "Instant/recv_timeout: simulated clock, timer expiry chosen by the scheduler", "Model and density: harness stubs with fault injection", "storage backend: harness recording backend with fault injection"],
+        "seams": ["every lock/send/recv/spawn/join/yield is a scheduling point decided by the harness's seeded scheduler (sticky-random and PCT-like personalities)", "simulated clock advanced by per-chain density cost", "settings.seed from the run seed"],
+    })
+}
+
+use crate::gen_sched::{GenOpts, ScriptStyle, gen_sched};
+
+fn c10(tier: Tier, seed: u64) -> i32 {
+    let mut ctx = Ctx::new("C10", tier, seed);
+    let n = ctx.n(1500, 150_000);
+    ctx.run_batch("mixed_scripts", "scenario = settings (6 presets, 1..6 chains, 1..4 cores, 0..16 draws) + tiny model + user script (pause/resume/progress/flush/inspect/short waits) x 4 (thorough 8) seeded schedules; every execution's per-chain records are compared bitwise with an uninterrupted FIFO single-core run of the same settings, and with runs of one chain more / fewer; non-trivial = >4 context switches and >=1 recorded draw; distinct = distinct event-log digest", n, |rs, _| {
+        gen_sched(rs, &GenOpts { prop: "C10", style: ScriptStyle::Mixed, tier, allow_abort: true, natural_divergences: true })
+    });
+    let n2 = ctx.n(700, 70_000);
+    ctx.run_batch("pause_resume", "as above with pause/resume-focused scripts", n2, |rs, _| {
+        gen_sched(rs, &GenOpts { prop: "C10", style: ScriptStyle::PauseFocused, tier, allow_abort: false, natural_divergences: true })
+    });
+    ctx.finish("exploration", components_engine_b(), vec![
+        "the uninterrupted trace is taken from the system itself (FIFO schedule, one core, no commands), not from a re-implementation of the seeding protocol".into(),
+        "rayon is a stand-in; work inside one chain is sequential in the real code too".into(),
+    ], json!({}))
+}
+
+fn c11(tier: Tier, seed: u64) -> i32 {
+    let mut ctx = Ctx::new("C11", tier, seed);
+    let n = ctx.n(1800, 200_000);
+    ctx.run_batch("mixed_scripts", "scenario as C10 (scripts incl. repeated pause, resume without pause, commands after completion, abort while paused / before any chain started; chains of different simulated speed; finite/absent progress-callback rate) x seeded schedules; invariants: no deadlock (shuttle: all tasks blocked), no livelock (step bound), every call returns; oracles: complete traces or exact prefixes, progress()/callback/inspect snapshots agree exactly with the recorded trace; non-trivial = >4 context switches with a script or an abort", n, |rs, _| {
+        gen_sched(rs, &GenOpts { prop: "C11", style: ScriptStyle::Mixed, tier, allow_abort: true, natural_divergences: true })
+    });
+    let n2 = ctx.n(500, 50_000);
+    ctx.run_batch("pause_then_abort", "pause-focused scripts, half of them ending in abort while paused", n2, |rs, _| {
+        let mut sc = gen_sched(rs, &GenOpts { prop: "C11", style: ScriptStyle::PauseFocused, tier, allow_abort: true, natural_divergences: false });
+        let mut r = Prng::sub(rs, "tweak");
+        if r.chance(0.5) {
+            sc.ending = crate::props_sched::Ending::Abort;
+            // drop the trailing resume(s): abort while paused
+            while matches!(sc.script.last(), Some(crate::props_sched::UserCmd::Resume)) {
+                sc.script.pop();
+            }
+        }
+        sc
+    });
+    ctx.finish("exploration", components_engine_b(), vec![
+        "liveness is stated as: the final wait loop (finite timeouts) obtains a result within 20000 timeouts and 3e6 scheduler steps once the script is over".into(),
+        "the script never waits for completion while paused (user error)".into(),
+    ], json!({}))
+}
+
+fn c12(tier: Tier, seed: u64) -> i32 {
+    let mut ctx = Ctx::new("C12", tier, seed);
+    let n = ctx.n(2200, 250_000);
+    ctx.run_batch("pause_resume", "pause-focused scripts (pause at a seeded point, progress snapshot, many yields of the user task so chains get every chance to overrun, resume; repeated pauses, double pause, double resume) x seeded schedules; oracle over global event sequence numbers: draws recorded per chain between return of pause() and next resume() <= 1 + earlier resume commands; unstarted chains record nothing; final trace equals the uninterrupted run; non-trivial = at least one pause interval checked", n, |rs, _| {
+        gen_sched(rs, &GenOpts { prop: "C12", style: ScriptStyle::PauseFocused, tier, allow_abort: false, natural_divergences: false })
+    });
+    let n2 = ctx.n(600, 60_000);
+    ctx.run_batch("mixed_scripts", "mixed scripts (resume without pause, pause bursts)", n2, |rs, _| {
+        gen_sched(rs, &GenOpts { prop: "C12", style: ScriptStyle::Mixed, tier, allow_abort: false, natural_divergences: false })
+    });
+    ctx.finish("exploration", components_engine_b(), vec![
+        "the bound uses only commands the user issued (a sound upper bound of what a chain may still hold), not mailbox contents".into(),
+    ], json!({}))
+}
+
+fn c13(tier: Tier, seed: u64) -> i32 {
+    let mut ctx = Ctx::new("C13", tier, seed);
+    let n = ctx.n(48, 3000);
+    ctx.run_batch("enumerate_faults", "per base run (<=3 chains, <=6 draws, scripts with flush/inspect/pause, wait or abort ending): EVERY fault position is injected in turn — an unrecoverable density error at every evaluation index of every chain (strided beyond 48 per chain), recoverable-class faults at every third, a record_sample error at every (chain, draw), chain/trace finalize, flush, inspect, new_trace, initialize_trace_for_chain, Model::math for controller and each chain, init_position error, first 1/7/all initialisation attempts failing — each under 2 seeded schedules; non-trivial = a fatal fault fired (recorded by the stub)", n, |rs, _| {
+        let mut sc = gen_sched(rs, &GenOpts { prop: "C13", style: ScriptStyle::Mixed, tier, allow_abort: true, natural_divergences: false });
+        let mut r = Prng::sub(rs, "tweak");
+        // small base runs so that every position can be enumerated
+        let nc = r.range(1, 3) as usize;
+        match &mut sc.preset {
+            crate::chain::Preset::DiagNuts(s) => { s.num_chains = nc; s.maxdepth = s.maxdepth.min(2) }
+            crate::chain::Preset::LowRankNuts(s) => { s.num_chains = nc; s.maxdepth = s.maxdepth.min(2) }
+            crate::chain::Preset::FlowNuts(s) => { s.num_chains = nc; s.maxdepth = s.maxdepth.min(2) }
+            crate::chain::Preset::DiagMclmc(s) => s.num_chains = nc,
+            crate::chain::Preset::LowRankMclmc(s) => s.num_chains = nc,
+            crate::chain::Preset::FlowMclmc(s) => s.num_chains = nc,
+        }
+        let nt = sc.preset.num_tune().min(3);
+        sc.preset.set_num_tune(nt);
+        fix_early_window(&mut sc.preset, nt);
+        let nd = sc.preset.num_draws().min(3).max(if nt == 0 { 1 } else { 0 });
+        sc.preset.set_num_draws(nd);
+        sc.n_schedules = 2;
+        sc.enumerate_faults = true;
+        sc
+    });
+    let n2 = ctx.n(400, 40_000);
+    ctx.run_batch("two_faulty_chains", "two or three simultaneous faults in different chains / layers at seeded positions, larger runs (<=6 chains), 4-8 schedules", n2, |rs, _| {
+        let mut sc = gen_sched(rs, &GenOpts { prop: "C13", style: ScriptStyle::Mixed, tier, allow_abort: true, natural_divergences: false });
+        let mut r = Prng::sub(rs, "faults");
+        let nc = crate::props_sched::num_chains(&sc.preset) as u64;
+        let t = sc.preset.num_tune() + sc.preset.num_draws();
+        let k = r.range(2, 3);
+        for _ in 0..k {
+            let f = match r.below(6) {
+                0 | 1 => crate::props_sched::FaultDesc::Density { instance: r.range(1, nc) as u32, at: r.below(120), kind: crate::density::FaultKind::UnrecoverableErr },
+                2 => crate::props_sched::FaultDesc::Density { instance: r.range(1, nc) as u32, at: r.below(120), kind: crate::density::FaultKind::RecoverableErr },
+                3 => crate::props_sched::FaultDesc::RecordErr { chain: r.below(nc), call: r.below(t.max(1)) },
+                4 => crate::props_sched::FaultDesc::MathFail { call: r.range(1, nc) as u32 },
+                _ => crate::props_sched::FaultDesc::ChainFinalizeErr { chain: r.below(nc) },
+            };
+            sc = sc.with_fault(&f);
+        }
+        sc
+    });
+    ctx.finish("fault_enumeration", components_engine_b(), vec![
+        "a fault counts only if the stub recorded that it fired (a fault scheduled behind an abort or in a chain that stopped earlier does not)".into(),
+        "abort() returning Ok after a chain reported an error on the results channel is not flagged: the statement's 'through wait_timeout/abort' is satisfied by wait_timeout (DESIGN.md §5 C13)".into(),
+    ], json!({}))
 }
